@@ -1,7 +1,7 @@
 (* C14 — the declarative meaning of the analytic functions: the value for a row as a function of the
    EARLIER counted rows of the same partition (no state), and of a whole query on the direct path.
    [an_spec_query] is what the OCaml driver compares the implementation's own output with. *)
-From SV Require Export Model.Analytic.
+From SV Require Export Model.Analytic Model.AnalyticMulti.
 
 (* the values that count for a NULL-skipping function *)
 Definition an_retained (ign : bool) (l : list aval) : list aval :=
@@ -133,7 +133,7 @@ Definition an_named_spec (ign : bool) (earlier : list arow) (r : arow) : bool :=
 
 Definition an_col_val (n : bytes) (r : arow) : aval := match alookup n r with Some v => v | None => AVNull end.
 
-Definition an_field_spec (k : afkind) (earlier : list arow) (r : arow) : aout :=
+Definition an_field_spec_g (sql : bool) (k : afkind) (earlier : list arow) (r : arow) : aout :=
   match k with
   | AKSingle c => an_out_of_res (an_call_spec_rows c earlier r)
   | AKWrapF n c => an_wsub (ARV (an_col_val n r)) (an_call_spec_rows c earlier r)
@@ -145,7 +145,12 @@ Definition an_field_spec (k : afkind) (earlier : list arow) (r : arow) : aout :=
                                 | Some x => [(prefix ++ n, x)]
                                 | None => []
                                 end) cols)
+  | AKExpr cs w =>
+      (* the wrapper's arithmetic over what each call returns by ITS OWN definition on the same earlier rows *)
+      an_weval sql w (map (fun c => an_call_spec_rows c earlier r) cs) r
   end.
+
+Definition an_field_spec : afkind -> list arow -> arow -> aout := an_field_spec_g false.
 
 (* same partition = equal PARTITION BY tuples, compared structurally and with their types (1, 1.0 and "1" differ) *)
 Definition aval_eqb (a b : aval) : bool :=
@@ -169,13 +174,15 @@ Definition an_same_part (f : afield) (r e : arow) : bool :=
 
 (* a field on a row, given the earlier rows that were offered to the engine: WHEN-gated rows of the same
    partition count; a row whose WHEN is false repeats the partition's last result *)
-Definition an_gated_spec (f : afield) (earlier : list arow) (r : arow) : aout :=
+Definition an_gated_spec_g (sql : bool) (f : afield) (earlier : list arow) (r : arow) : aout :=
   let mine := filter (fun e => an_same_part f r e && an_gate f e) earlier in
-  if an_gate f r then an_field_spec (af_kind f) mine r
+  if an_gate f r then an_field_spec_g sql (af_kind f) mine r
   else match rev mine with
        | [] => an_field_dflt (af_kind f)
-       | l :: before => an_field_spec (af_kind f) (rev before) l
+       | l :: before => an_field_spec_g sql (af_kind f) (rev before) l
        end.
+
+Definition an_gated_spec : afield -> list arow -> arow -> aout := an_gated_spec_g false.
 
 (* the direct path: rows passing an analytic-free WHERE are the rows offered to the engine; when WHERE itself
    holds an analytic call every row is offered and the filter looks at the results *)
@@ -208,3 +215,33 @@ Definition an_within_cap (q : aquery) (rows : list arow) : bool :=
   let n := fun f => length (an_distinct (map (an_part_vals (af_part f)) rows)) in
   (n (aq_field q) <=? aq_cap q)%nat &&
   match aq_where q with AWAnalytic wf => (n wf <=? aq_cap q)%nat | _ => true end.
+
+(* ---------------------------------------------------------------- several select items + analytic WHERE *)
+(* every item is judged on its own: its value is its gated specification over the rows OFFERED to the engines -
+   all earlier rows when WHERE holds an analytic call (also those the filter removed), the earlier rows that passed
+   an analytic-free WHERE otherwise.  [sql] selects the arithmetic of wrapper items (Model: an_weval). *)
+Fixpoint an_mspec_aux (sql : bool) (q : amquery) (offered : list arow) (rows : list arow)
+  : list (option (list aout)) :=
+  match rows with
+  | [] => []
+  | r :: t =>
+      let vals := map (fun f => an_gated_spec_g sql f offered r) (mq_items q) in
+      match mq_wan q with
+      | Some (wf, tst) =>
+          (if an_mcolpass q r && an_wtest tst (an_gated_spec_g sql wf offered r) then Some vals else None)
+          :: an_mspec_aux sql q (offered ++ [r]) t
+      | None =>
+          if an_mcolpass q r then Some vals :: an_mspec_aux sql q (offered ++ [r]) t
+          else None :: an_mspec_aux sql q offered t
+      end
+  end.
+
+Definition an_mspec_query (sql : bool) (q : amquery) (rows : list arow) : list (option (list aout)) :=
+  an_mspec_aux sql q [] rows.
+
+Definition an_parts_of (f : afield) (rows : list arow) : nat :=
+  length (an_distinct (map (an_part_vals (af_part f)) rows)).
+
+Definition an_mwithin_cap (q : amquery) (rows : list arow) : bool :=
+  forallb (fun f => (an_parts_of f rows <=? mq_cap q)%nat) (mq_items q) &&
+  match mq_wan q with Some (wf, _) => (an_parts_of wf rows <=? mq_cap q)%nat | None => true end.
